@@ -150,47 +150,70 @@ def wireChildren {J : Type} (ns : Array (WNode J)) (i : Nat) : List Nat :=
 def bitsNat (bs : List Bool) : Nat := bs.foldl (fun acc b => acc * 2 + (if b then 1 else 0)) 0
 def bitsBytes (bs : List Bool) : List Nat := packBits bs
 
+/-- the root of node `i` of the wire list if it is a hidden node -/
+def hiddenAt {J : Type} (ns : Array (WNode J)) (i : Nat) : Option Nat :=
+  match ns[i]? with | some (.hidden h) => some (bitsNat h) | _ => none
+
+/-- a child that must not be a hidden node -/
+def needVisible {J : Type} (ns : Array (WNode J)) (i : Nat) : Except DErr Unit :=
+  if (hiddenAt ns i).isSome then .error .hidden else .ok ()
+
+/-- conversion of one node: hidden nodes only under `case`, never both; `case` with a hidden child
+becomes an assertion -/
+def convNode {J : Type} (nameOf : J → String) (ns : Array (WNode J)) : WNode J → Except DErr Node
+  | .iden => .ok Node.iden
+  | .unit => .ok Node.unit
+  | .witness => .ok Node.witness
+  | .injl c => match needVisible ns c with | .error e => .error e | .ok _ => .ok (Node.injl c)
+  | .injr c => match needVisible ns c with | .error e => .error e | .ok _ => .ok (Node.injr c)
+  | .take c => match needVisible ns c with | .error e => .error e | .ok _ => .ok (Node.take c)
+  | .drop c => match needVisible ns c with | .error e => .error e | .ok _ => .ok (Node.drop c)
+  | .disc1 c => match needVisible ns c with | .error e => .error e | .ok _ => .ok (Node.disconnect c none)
+  | .comp a b => match needVisible ns a with
+    | .error e => .error e
+    | .ok _ => match needVisible ns b with | .error e => .error e | .ok _ => .ok (Node.comp a b)
+  | .pair a b => match needVisible ns a with
+    | .error e => .error e
+    | .ok _ => match needVisible ns b with | .error e => .error e | .ok _ => .ok (Node.pair a b)
+  | .disc a b => match needVisible ns a with
+    | .error e => .error e
+    | .ok _ => match needVisible ns b with | .error e => .error e | .ok _ => .ok (Node.disconnect a (some b))
+  | .case a b =>
+    match hiddenAt ns a, hiddenAt ns b with
+    | none, none => .ok (Node.case a b)
+    | none, some h => .ok (Node.assertl a h)
+    | some h, none => .ok (Node.assertr h b)
+    | some _, some _ => .error .bothHidden
+  | .fail e => .ok (Node.fail (bitsBytes e))
+  | .hidden h => .ok (Node.hidden (bitsNat h))
+  | .jet j => .ok (Node.jet (nameOf j))
+  | .word n w => .ok (Node.word n w)
+
+/-- the conversion loop over the node list, in order: convert the node, then refuse a hidden root
+that was seen before (`hiddenSeen` = the roots of the hidden nodes so far) -/
+def convertGo {J : Type} (nameOf : J → String) (ns : Array (WNode J)) :
+    List (WNode J) → List Nat → Except DErr (List Node)
+  | [], _ => .ok []
+  | n :: rest, hiddenSeen =>
+    match convNode nameOf ns n with
+    | .error e => .error e
+    | .ok nd =>
+      match (match n with
+        | .hidden h =>
+          if hiddenSeen.contains (bitsNat h) then .error .sharing else .ok (bitsNat h :: hiddenSeen)
+        | _ => .ok hiddenSeen : Except DErr (List Nat)) with
+      | .error e => .error e
+      | .ok seen' =>
+        match convertGo nameOf ns rest seen' with
+        | .error e => .error e
+        | .ok tl => .ok (nd :: tl)
+
 /-- conversion of the decoded node list: hidden nodes only under `case`, never both, never the
 root, never repeated; `case` with a hidden child becomes an assertion -/
-def convert {J : Type} (nameOf : J → String) (ns : Array (WNode J)) : Except DErr Plan := do
-  let isHidden (i : Nat) : Option Nat := match ns[i]? with | some (.hidden h) => some (bitsNat h) | _ => none
-  let need (i : Nat) : Except DErr Unit := if (isHidden i).isSome then .error .hidden else .ok ()
-  let mut out : Array Node := #[]
-  let mut hiddenSeen : List Nat := []
-  for i in [0:ns.size] do
-    match ns[i]? with
-    | none => pure ()
-    | some n =>
-      let nd ← (match n with
-        | .iden => pure Node.iden
-        | .unit => pure Node.unit
-        | .witness => pure Node.witness
-        | .injl c => do need c; pure (Node.injl c)
-        | .injr c => do need c; pure (Node.injr c)
-        | .take c => do need c; pure (Node.take c)
-        | .drop c => do need c; pure (Node.drop c)
-        | .disc1 c => do need c; pure (Node.disconnect c none)
-        | .comp a b => do need a; need b; pure (Node.comp a b)
-        | .pair a b => do need a; need b; pure (Node.pair a b)
-        | .disc a b => do need a; need b; pure (Node.disconnect a (some b))
-        | .case a b =>
-          match isHidden a, isHidden b with
-          | none, none => pure (Node.case a b)
-          | none, some h => pure (Node.assertl a h)
-          | some h, none => pure (Node.assertr h b)
-          | some _, some _ => .error .bothHidden
-        | .fail e => pure (Node.fail (bitsBytes e))
-        | .hidden h => pure (Node.hidden (bitsNat h))
-        | .jet j => pure (Node.jet (nameOf j))
-        | .word n w => pure (Node.word n w) : Except DErr Node)
-      match n with
-      | .hidden h =>
-        if hiddenSeen.contains (bitsNat h) then throw .sharing
-        hiddenSeen := bitsNat h :: hiddenSeen
-      | _ => pure ()
-      out := out.push nd
-  if (isHidden (ns.size - 1)).isSome then throw .hidden
-  pure out
+def convert {J : Type} (nameOf : J → String) (ns : Array (WNode J)) : Except DErr Plan :=
+  match convertGo nameOf ns ns.toList [] with
+  | .error e => .error e
+  | .ok out => if (hiddenAt ns (ns.size - 1)).isSome then .error .hidden else .ok out.toArray
 
 /-- the canonical-order check of `decode_expression`: the pointer-sharing post-order walk from the
 last node yields every node at its own index -/
@@ -204,20 +227,25 @@ structure Decoded where
   wits : List (Nat × List Bool)
   annots : Array Annot
 
+/-- the witness reader's loop: node `i` is the head of the list -/
+def readGo (arrows : Array (BM4.Ty × BM4.Ty)) :
+    List Node → Nat → List Bool → Except DErr (List (Nat × List Bool) × List Bool)
+  | [], _, bits => .ok ([], bits)
+  | nd :: rest, i, bits =>
+    match nd with
+    | .witness =>
+      match decCompact (arrows.getD i (.one, .one)).2 bits with
+      | some (v, r) =>
+        match readGo arrows rest (i + 1) r with
+        | .ok (ws, r') => .ok ((i, compact v) :: ws, r')
+        | .error e => .error e
+      | none => .error .eof
+    | _ => readGo arrows rest (i + 1) bits
+
 /-- witness values in conversion (post-order = index) order, each of its node's target type -/
 def readWitnesses (p : Plan) (arrows : Array (BM4.Ty × BM4.Ty)) (bits : List Bool) :
-    Except DErr (List (Nat × List Bool) × List Bool) := do
-  let mut rest := bits
-  let mut acc : List (Nat × List Bool) := []
-  for i in [0:p.size] do
-    match p[i]? with
-    | some Node.witness =>
-      let ty := (arrows.getD i (.one, .one)).2
-      match decCompact ty rest with
-      | some (v, r) => acc := (i, compact v) :: acc; rest := r
-      | none => throw .eof
-    | _ => pure ()
-  pure (acc.reverse, rest)
+    Except DErr (List (Nat × List Bool) × List Bool) :=
+  readGo arrows p.toList 0 bits
 
 structure Tables where
   J : Type
